@@ -112,9 +112,28 @@ table_harness!(dyn32, Dyn, Class::ELF32, 8);
 iter_harness!(rel32, Rel, Class::ELF32, 8);
 iter_harness!(rela32, Rela, Class::ELF32, 12);
 
-/// one 64-byte ELF64 section header + ragged tail (the full k=2 harness for this entry type is in the thorough tier)
+/// One 64-byte ELF64 section header + ragged tail, lean variant for the quick tier (the full coherence harness for this entry
+/// type is in the thorough tier): len() counts whole entries, get(i) succeeds exactly for i < len() (any usize i), iteration yields
+/// exactly len() items.
 #[kani::proof]
 #[kani::unwind(4)]
 pub fn shdr64_k1() {
-    table_coherence::<SectionHeader, 127>(Class::ELF64, 64, 1);
+    let (buf, len) = any_buf::<127>();
+    let data = &buf[..len];
+    let e = any_endian();
+    let t: ParsingTable<'_, AnyEndian, SectionHeader> = ParsingTable::new(e, Class::ELF64, data);
+    let n = t.len();
+    assert!(n == len / 64);
+    let i: usize = kani::any();
+    assert!(t.get(i).is_ok() == (i < n));
+    let mut it = t.iter();
+    let mut count = 0usize;
+    while count <= 1 {
+        match it.next() {
+            Some(_) => count += 1,
+            None => break,
+        }
+    }
+    assert!(count == n);
+    kani::cover!(n == 1 && len % 64 != 0, "one entry and a ragged tail");
 }
